@@ -118,7 +118,7 @@ def run_tik(exe, env, base, i, rec):
     d = os.path.join(base, "t%06d" % i)
     shutil.rmtree(d, ignore_errors=True)
     os.makedirs(d)
-    var = i % 2
+    var = rec.get("var", i % 2)         # a replayed record carries the file layout it failed with
     write_tik(rec, d, var)
     cmd = tik_cmd(exe, rec, var)
     e = dict(os.environ)
@@ -141,7 +141,7 @@ def run_tik(exe, env, base, i, rec):
 
 
 def tik_class(rec):
-    return "%s:%s" % ("r>0" if rec["rn"] > 0 else "r=0", "sym" if rec["sym"] else "nonsym")
+    return "%s:%s" % ("rpos" if rec["rn"] > 0 else "rzero", "sym" if rec["sym"] else "nonsym")
 
 
 def compare_tik(ctx, rec, rc, out, tables):
@@ -159,8 +159,6 @@ def compare_tik(ctx, rec, rc, out, tables):
     for nm in sorted(set(tables) - set(expected)):
         bad.append(("imc_solve:split:table-extra", "unexpected table %s.dpot.imc" % nm))
     den = float(rec["den"])
-    allexp = sorted(n_ / den for rows in expected.values() for (_, n_) in rows)
-    allgot = []
     valbad = None
     for nm in sorted(set(expected) & set(tables)):
         rows, exp = tables[nm], expected[nm]
@@ -169,7 +167,6 @@ def compare_tik(ctx, rec, rc, out, tables):
         except (ValueError, IndexError):
             bad.append(("imc_solve:split:format", "%s.dpot.imc is not a numeric table: %s" % (nm, rows[:3])))
             continue
-        allgot += [y for _, y in got]
         if len(got) != len(exp):
             bad.append(("imc_solve:split:rows", "%s.dpot.imc has %d rows, the index entry names %d positions" % (
                 nm, len(got), len(exp))))
@@ -185,13 +182,23 @@ def compare_tik(ctx, rec, rc, out, tables):
                     valbad = "%s.dpot.imc row %d (grid %r): written %r, solution of the normal equations %.10g = %d/%d" % (
                         nm, k + 1, x, y, ev, n_, rec["den"])
     if valbad is not None:
-        # right numbers in the wrong rows/tables -> splitting; otherwise the solution itself is wrong
-        perm = len(allgot) == len(allexp) and all(abs(a - b) <= 1e-9 + 1e-7 * abs(b) for a, b in zip(sorted(allgot), allexp))
-        if perm:
-            bad.append(("imc_solve:split:wrong-rows", valbad))
-        else:
-            bad.append(("imc_solve:solution:" + tik_class(rec), valbad))
+        bad.append((VALUE, valbad))      # solution or splitting at fault: decided over all systems, see value_key
     return bad
+
+
+VALUE = "imc_solve:value"
+
+
+def single_table(rec):
+    return len(rec["idx"]) == 1 and rec["idx"][0]["blocks"] in ([[1, rec["n"]]], [[1]])
+
+
+def value_key(rec, solver_wrong):
+    """A wrong table value is the solver's fault if systems whose index file is the single entry `name 1:n` fail too
+    (then every failure is keyed by the class of its system); if only multi-table systems fail, the splitting is."""
+    if solver_wrong or single_table(rec):
+        return "imc_solve:solution:" + tik_class(rec)
+    return "imc_solve:split:wrong-rows"
 
 
 def tik_text(rec, cmd):
@@ -289,8 +296,12 @@ def _tlc(ctx, cfg, what, env, timeout=2400, expect=None, workers=4):
 
 def _run(ctx, quick, workers, exe_imc, exe_drv, env, base):
     tik, con = [], []
+    replay_key = None
     if getattr(ctx, "replay", None):
-        rec = json.load(open(ctx.replay))["replay"]
+        art = json.load(open(ctx.replay))
+        rec = art["replay"]
+        if str(art.get("key", "")).startswith(("imc_solve:solution", "imc_solve:split:wrong-rows")):
+            replay_key = art["key"]     # one system alone cannot tell solver from splitting: keep the recorded class
         rec.pop("cmd", None)
         (tik if rec["k"] in ("tik", "xt") else con).append(rec)
     else:
@@ -343,6 +354,7 @@ def _run(ctx, quick, workers, exe_imc, exe_drv, env, base):
     with ThreadPoolExecutor(max_workers=workers) as ex:
         outs = list(ex.map(work, list(enumerate(tik))))
     shapes = {}
+    confirmed = []
     for i, (rec, (cmd, rc, out, tables)) in enumerate(zip(tik, outs)):
         ctx.traces += 1
         shapes[rec["n"]] = shapes.get(rec["n"], 0) + 1
@@ -353,15 +365,19 @@ def _run(ctx, quick, workers, exe_imc, exe_drv, env, base):
             # re-run once from the recorded artefact before reporting (DESIGN 7.7)
             cmd2, rc2, out2, tables2 = run_tik(exe_imc, env, base, 10000000 + i, rec)
             bad2 = {k for k, _ in compare_tik(ctx, rec, rc2, out2, tables2)}
-            for key, text in bad:
-                if key in bad2:
-                    r2 = dict(rec)
-                    r2["cmd"] = cmd[1:]
-                    ctx.violation(key, text + " " + tik_text(rec, cmd), r2)
+            confirmed += [(key, text, rec, cmd) for key, text in bad if key in bad2]
         if i % max(1, len(tik) // 3) == 0:
             ctx.sample({"csg_imc_solve": " ".join(cmd[1:]), "A": rec["A"], "b": rec["b"], "r": "%d/%d" % (rec["rn"], rec["rd"]),
                         "index": ["%s %s" % (tname(rec, e["name"]), render_range(e["blocks"])) for e in rec["idx"]],
                         "x": "%s/%d" % (rec["num"], rec["den"])})
+    solver_wrong = any(key == VALUE and single_table(rec) for key, _, rec, _ in confirmed)
+    for key, text, rec, cmd in confirmed:
+        if key == VALUE:
+            key = replay_key if replay_key else value_key(rec, solver_wrong)
+        r2 = dict(rec)
+        r2["cmd"] = cmd[1:]
+        r2["var"] = 1 if "--imcfile" in cmd else 0
+        ctx.violation(key, text + " " + tik_text(rec, cmd), r2)
     ctx.extra["tikhonov_systems_by_n"] = {str(k): v for k, v in sorted(shapes.items())}
 
     # ---- (ii) linalg_constrained_qrsolve ----------------------------------------------------------------
